@@ -58,6 +58,17 @@ func (p *Proof) IsValid(public Public) bool {
 	if p == nil {
 		return false
 	}
+	// every field is needed below: a proof with a missing field is not valid
+	if p.Commitment == nil ||
+		p.Z1 == nil ||
+		p.Z2 == nil ||
+		p.W == nil ||
+		p.S == nil ||
+		p.T == nil ||
+		p.A == nil ||
+		p.Gamma == nil {
+		return false
+	}
 	if p.Gamma == nil || p.Gamma.IsZero() {
 		return false
 	}
